@@ -38,8 +38,9 @@ Proof.
   cbn [List.rev]. rewrite <- app_assoc. reflexivity.
 Qed.
 
-Definition wordlike (t : token) : bool := match t with TNum _ | TWord _ => true | _ => false end.
-Definition tok_ok (t : token) : bool := match t with TWord w => word_ok w | _ => true end.
+Definition wordlike (t : token) : bool := match t with TNum _ | TWord _ | TDec _ => true | _ => false end.
+(* the printer never emits a decimal token *)
+Definition tok_ok (t : token) : bool := match t with TWord w => word_ok w | TDec _ => false | _ => true end.
 Fixpoint sep_ok (ts : list token) : bool :=
   match ts with
   | [] => true
@@ -49,13 +50,19 @@ Fixpoint sep_ok (ts : list token) : bool :=
 (* what a pending word turns into *)
 Definition pending_ok (acc : list N) (t : token) : Prop := acc <> [] /\ flush acc = [t].
 
+Lemma wordchars_no_dot w : forallb is_wordchar w = true -> has_dot w = false.
+Proof.
+  unfold has_dot. induction w as [|c w IH]; cbn; [reflexivity|]. intro H. apply andb_true_iff in H. destruct H as [Hc Hw].
+  rewrite (IH Hw), orb_false_r. destruct (N.eqb_spec c 46) as [->|]; [discriminate|reflexivity].
+Qed.
+
 Lemma flush_word w : word_ok w = true -> flush (List.rev w) = [TWord w].
 Proof.
-  unfold word_ok, flush. intro H. apply andb_true_iff in H. destruct H as [H Hd]. apply andb_true_iff in H. destruct H as [Hne _].
+  unfold word_ok, flush. intro H. apply andb_true_iff in H. destruct H as [H Hd]. apply andb_true_iff in H. destruct H as [Hne Hwc].
   destruct w as [|c w]; [discriminate|]. rewrite rev_involutive.
   destruct (List.rev (c :: w)) eqn:E.
   - apply (f_equal (@length N)) in E. rewrite rev_length in E. discriminate.
-  - apply negb_true_iff in Hd. rewrite Hd. reflexivity.
+  - apply negb_true_iff in Hd. rewrite Hd, (wordchars_no_dot _ Hwc). reflexivity.
 Qed.
 
 Lemma flush_num n : flush (List.rev (num_chars n)) = [TNum n].
@@ -104,6 +111,7 @@ Proof.
       rewrite lex_go_word by exact Hwc. rewrite app_nil_r.
       rewrite IH; [rewrite (flush_word w Hok); reflexivity|exact Htl|].
       right. cbn [wordlike andb] in Hadj. destruct tl as [|t' tl']; [exact I|]. apply negb_true_iff in Hadj. exact Hadj.
+    + cbn in Hok. discriminate.
 Qed.
 
 Lemma lex_render ts : sep_ok ts = true -> lex (render ts) = Some ts.
@@ -317,5 +325,26 @@ Proof.
 Qed.
 
 (* the elaborated reading of a printed canonical statement list is the elaboration of the list itself *)
-Corollary parse_mfl_print_lemma ss : canonical ss = true -> parse_mfl (stringify ss) = elaborate_all ss.
-Proof. intro H. unfold parse_mfl. rewrite (mfl_parse_print_lemma ss H). reflexivity. Qed.
+Corollary parse_mfl_print_lemma ss :
+  canonical ss = true ->
+  parse_mfl (stringify ss) =
+  if allometry_bracketed false (stmts_tokens ss) then Rejected else
+  match elaborate_all ss with
+  | Some ss' => if existsb allometry_missing_ref ss then InternalError else Accepted ss'
+  | None => Rejected
+  end.
+Proof.
+  intro H. unfold parse_mfl. rewrite (mfl_parse_print_lemma ss H).
+  unfold canonical in H. apply andb_true_iff in H. destruct H as [_ Hok].
+  unfold stringify. rewrite (lex_render _ (sep_ok_stmts ss Hok)). reflexivity.
+Qed.
+
+(* the interpreter's internal error needs an ALLOMETRY statement without reference value *)
+Lemma parse_mfl_internal_error text :
+  parse_mfl text = InternalError ->
+  exists ss, parse_ref text = Some ss /\ existsb allometry_missing_ref ss = true.
+Proof.
+  unfold parse_mfl. destruct (lex text) as [ts|]; [|discriminate]. destruct (allometry_bracketed false ts); [discriminate|].
+  destruct (parse_ref text) as [ss|]; [|discriminate]. destruct (elaborate_all ss); [|discriminate].
+  destruct (existsb allometry_missing_ref ss) eqn:E; [|discriminate]. intros _. exists ss. auto.
+Qed.
